@@ -13,6 +13,7 @@ import (
 	"sort"
 	"strings"
 	"testing"
+	"time"
 
 	"github.com/gagliardetto/solana-go"
 	"github.com/ipfs/go-cid"
@@ -140,6 +141,7 @@ type c03World struct {
 func TestVerif_C03(t *testing.T) {
 	silenceKlog()
 	R := vkit.New("C03")
+	vkRequestWatchdog = 120 * time.Second // a request that never returns is a finding, not a worker timeout
 	defer R.Finish()
 	base := vkBase("c03")
 	defer os.RemoveAll(base)
